@@ -119,6 +119,7 @@ def run(c, chk):
     chk.floor('R9.5 removing paths', nrm, 1)
 
     copy_before_release(c, chk, ex)
+    unique_titles(c, chk, ex)
 
     # ---- R9.3 --------------------------------------------------------------------------------
     sites = title_sites(c, ex)
@@ -206,6 +207,52 @@ def copy_before_release(c, chk, ex):
         else:
             chk.ok('R9.6', fname, 'the argument is duplicated before anything is released', sample=(fname == 'cfg_opt_setnstr'))
     chk.floor('R9.6 argument copies', n, 3)
+
+
+def unique_titles(c, chk, ex):
+    """R9.7: cfg_addtsec() adds a section only when no section of that option has the title: the path that goes on to
+    create one has established 'not found' for the WHOLE range of positions (also position 0)"""
+    chk.rule('R9.7', 'adding a titled section is refused whenever a section with that title exists, at any position')
+    fn = c.need('cfg_addtsec')
+    n = 0
+    bad = None
+    for p in ex.explore(fn):
+        if p.end != 'ret':
+            continue
+        so = [i for i, e in enumerate(p.events) if e.kind == 'call' and e.name == 'cfg_setopt']
+        if not so:
+            continue
+        n += 1
+        look = [e for e in p.events[:so[0]] if e.kind == 'call' and e.name in ('cfg_gettsec', 'cfg_opt_gettsec', 'cfg_opt_gettsecidx')]
+        if not look:
+            bad = bad or (p, 'without looking for an existing section with that title')
+            continue
+        e = look[-1]
+        ok = False
+        for cn, t, _ in p.assume:
+            if cn[0] != 'icmp' or e.res not in (cn[2], cn[3]):
+                continue
+            other = cn[3] if cn[2] == e.res else cn[2]
+            if not sym.is_const(other):
+                continue
+            k, pr = other[1], cn[1]
+            if cn[3] == e.res:      # constant on the left: mirror the predicate
+                pr = {'slt': 'sgt', 'sgt': 'slt', 'sle': 'sge', 'sge': 'sle'}.get(pr, pr)
+            if e.name == 'cfg_opt_gettsecidx':
+                # what is known must imply result < 0
+                implies = (pr == 'slt' and t and k <= 0) or (pr == 'sle' and t and k <= -1) or (pr == 'sge' and not t and k <= 0) or \
+                          (pr == 'sgt' and not t and k <= -1) or (pr == 'eq' and t and k < 0) or (pr == 'ne' and not t and k < 0)
+                ok = ok or implies
+            else:
+                ok = ok or (k == 0 and ((pr == 'eq') == t))
+        if not ok:
+            bad = bad or (p, 'although the lookup %s() was not shown to have found nothing (a hit at position 0 passes the test)' % e.name)
+    if bad:
+        chk.fail('R9.7', 'duplicate-title-check', c.where(fn), 'cfg_addtsec() goes on to create the section %s: the existing section with that title is replaced by an empty one' % bad[1],
+                 witness=['path condition: ' + ' && '.join(('' if t else '!') + sym.render(cn) for cn, t, _ in bad[0].assume[-4:])])
+    elif n:
+        chk.ok('R9.7', 'cfg_addtsec: %d creating paths' % n, 'each has established that no section has the title', sample=True)
+    chk.floor('R9.7 creating paths of cfg_addtsec', n, 1)
 
 
 def title_sites(c, ex):
